@@ -9,6 +9,11 @@ Static rules over the seven generators (and mjcf_schema.py where they consume it
                    the schema a generator sees always comes from parse_file/parse_string
  R-RECURSION       element-tree walks (recursive or work-list) carry an ancestry/visited guard, because the validator
                    does not make element nesting acyclic
+Layout independence: a set handed to a helper is judged by what the helper does with the parameter (and a set a helper
+returns is followed into its callers); lookups are justified through helper returns, `f(*t)`, table aliases and the
+validator's helpers; a work list is guarded when every statement that can refill it (transitively) runs only where the
+popped item is known not to be in the visited set -- `if x in V: continue`, `if x not in V: ...`, a predicate or
+test-and-mark helper alike; the recursive walk is keyed by module + role (`<module>:recursive-element-walk`).
 Not decided: that the emitted text is the right text for every schema.
 """
 from __future__ import annotations
@@ -47,9 +52,18 @@ class SetTypes:
         self.mod = mod
         self.names = {}      # (Func|None, name) -> True
         self.attrs = set()   # (class, attr)
+        self.ret_sets = set()  # functions every return of which is a set: their call results are tracked as sets
         changed = True
         while changed:
             changed = False
+            for fn in mod.funcs.values():
+                if fn in self.ret_sets:
+                    continue
+                rets = [n for n in mod.nodes(fn) if isinstance(n, ast.Return)]
+                if rets and all(r.value is not None and self.is_set(r.value, fn) for r in rets) and \
+                        not any(isinstance(n, (ast.Yield, ast.YieldFrom)) for n in mod.nodes(fn)):
+                    self.ret_sets.add(fn)
+                    changed = True
             for fn in [None] + list(mod.funcs.values()):
                 for n in mod.nodes(fn):
                     tgt = val = None
@@ -113,6 +127,11 @@ class SetTypes:
         if isinstance(e, ast.Call) and isinstance(e.func, ast.Attribute) and e.func.attr in (
                 "union", "intersection", "difference", "copy") and self.is_set(e.func.value, fn):
             return True
+        if isinstance(e, ast.Call) and fn is not None and hasattr(e, "_mod"):
+            kind, tg = P._resolve_basic(e, fn, ())
+            if kind == "func" and tg and all(g.node.name != "__init__" and g in (
+                    self.ret_sets if g.mod is self.mod else _settypes(g.mod).ret_sets) for g in tg):
+                return True            # a helper that builds and returns a set: the call is that set
         return False
 
 
@@ -140,6 +159,7 @@ def _settypes(mod):
     if st is None:
         class _E:
             names = {}
+            ret_sets = set()
         return _E()
     return st
 
@@ -167,7 +187,30 @@ def _commutative_fold(loop, st, fn):
                                             for e in src.elts)
 
 
-def _set_context(n, st, fn):
+def _param_order_free(g, pn, seen=None):
+    """Parameter `pn` of g is not tracked as a set (some caller passes something else), but a set may arrive: every use
+    of it inside g must be one that is order-free for a set (judged exactly as a set-typed value would be)."""
+    seen = set() if seen is None else seen
+    if (g, pn) in seen:
+        return True
+    seen.add((g, pn))
+    if pn not in g.params or pn in P.stores_of(g):
+        return False
+    for h in g.mod.funcs.values():
+        if h is not g and P._nested_in(h, g) and any(
+                isinstance(x, ast.Name) and x.id == pn and P._scope_of(pn, h) is g for x in g.mod.nodes(h)):
+            return False                  # captured by a nested function: uses not followed
+    for x in g.mod.nodes(g):
+        if isinstance(x, ast.Name) and x.id == pn and isinstance(x.ctx, ast.Load) and not x._ann:
+            if pn in P._comp_bound(x):
+                continue
+            ok, _ = _set_context(x, _settypes(g.mod), g, seen)
+            if not ok:
+                return False
+    return True
+
+
+def _set_context(n, st, fn, _seen=None):
     """(ok, idiom-or-reason) for a set-typed expression node n, judged by how its value is consumed."""
     p = n._parent
     fld = n._field
@@ -197,14 +240,18 @@ def _set_context(n, st, fn):
             return True, f"ORDER-FREE {p.func.id}()"
         kind, tg = P.resolve(p, fn) if fn is not None else ("unknown", None)
         if kind == "func":
-            ok = True
+            ok, how = True, "ARGUMENT (parameter tracked as set)"
             for g in tg:
                 b = {id(v): k for k, v in P.bind_args(p, g).items()}
                 pn = b.get(id(n))
-                if pn is None or (g, pn) not in _settypes(g.mod).names:
-                    ok = False
+                if pn is not None and (g, pn) in _settypes(g.mod).names:
+                    continue
+                if pn is not None and _param_order_free(g, pn, _seen):
+                    how = "ARGUMENT (every use of the parameter in the callee is order-free)"
+                    continue
+                ok = False
             if ok:
-                return True, "ARGUMENT (parameter tracked as set)"
+                return True, how
         return False, f"passed to `{P.text(p.func)}(...)`, which may depend on iteration order"
     if isinstance(p, ast.arguments) and fld in ("defaults", "kw_defaults"):
         owner = p._parent
@@ -217,6 +264,8 @@ def _set_context(n, st, fn):
         kind, tg = P.resolve(call, fn) if fn is not None else ("unknown", None)
         if kind == "func" and all((g, p.arg) in _settypes(g.mod).names for g in tg):
             return True, "ARGUMENT (parameter tracked as set)"
+        if kind == "func" and all((g, p.arg) in _settypes(g.mod).names or _param_order_free(g, p.arg, _seen) for g in tg):
+            return True, "ARGUMENT (every use of the parameter in the callee is order-free)"
         return False, f"passed as {p.arg}= to `{P.text(call.func)}`"
     if isinstance(p, (ast.If, ast.While, ast.IfExp)) and fld == "test":
         return True, "TRUTHINESS"
@@ -236,6 +285,9 @@ def _set_context(n, st, fn):
             return True, "COMMUTATIVE-FOLD (single-character deletions commute)"
         return False, "iterated by a for loop: iteration order of a set depends on hashing"
     if isinstance(p, ast.Return):
+        g = n._fn
+        if g is not None and g in _settypes(g.mod).ret_sets:
+            return True, "RETURN (every return of the helper is a set: its call results are tracked as sets)"
         return False, "returned to callers (uses not tracked)"
     if isinstance(p, ast.FormattedValue):
         return False, "formatted into a string: element order depends on hashing"
@@ -516,7 +568,7 @@ def _eq_guaranteed(node, fn, key_text, T, guar):
     return None
 
 
-def rule_guar(res, mods):
+def rule_guar(res, mods, und):
     sm = P.model()
     guar = P.validator_guarantees()
     res.rule("R-ASSUME-GUAR", "every lookup schema.enums/groups/elements[key] in a generator uses a key that is a key of that "
@@ -555,9 +607,9 @@ def rule_guar(res, mods):
                 res.ok("R-ASSUME-GUAR", construct, {"file": f, "line": 1, "via": "mjcf_schema.parse_file"})
         for fn in mod.funcs.values():
             for n in mod.nodes(fn):
-                if not (isinstance(n, ast.Subscript) and isinstance(n.ctx, ast.Load) and P.table_of(n.value) and not n._ann):
+                if not (isinstance(n, ast.Subscript) and isinstance(n.ctx, ast.Load) and P.table1(n.value, fn) and not n._ann):
                     continue
-                T = P.table_of(n.value)
+                T = P.table1(n.value, fn)
                 construct = f"{mod.name}.{fn.qual}:{P.text(n)}"
                 k = P.know_at(n, fn)
                 kt, ct = P.text(n.slice), P.text(n.value)
@@ -586,6 +638,10 @@ def rule_guar(res, mods):
                         miss.append(o)
                 if org and not miss:
                     res.ok("R-ASSUME-GUAR", construct, {"file": f, "line": n.lineno, "idiom": sorted(how)})
+                elif not org or all(o[0] == "unknown" or P.weak_guarantee(o, T) for o in miss):
+                    # the key could not be traced to a field / table key / literal: cannot decide (not a violation)
+                    und.add("R-ASSUME-GUAR", construct, f, n.lineno,
+                            f"key of schema.{T} lookup has an origin the analyser cannot trace: {sorted(map(str, miss or org))}")
                 else:
                     res.bad("R-ASSUME-GUAR", construct, f, n.lineno,
                             f"key of origin {sorted(map(str, miss or org))} is looked up in schema.{T} without a membership "
@@ -649,6 +705,21 @@ def _ancestry_guard(fn, comp):
                 break
         if not grown:
             continue
+        # what is known at every recursive call (tests in the function, in checking helpers it calls, at its own call
+        # sites) must involve membership of the grown element in the ancestry parameter
+        def atoms(k):
+            out = [key for key in k.K]
+            for f in k.fs:
+                stack = [f]
+                while stack:
+                    x = stack.pop()
+                    if x[0] == "lit":
+                        out.append(x[1])
+                    else:
+                        stack.extend(x[1])
+            return out
+        if rec and all(any(a[0] == "in" and a[2] == pn and a[1] in grown for a in atoms(P.know_at(c, fn))) for c in rec):
+            return f"membership of {grown[0]} in {pn} is tested on the way to every recursive call, {pn} grown by {grown[0]}"
         for n in m.nodes(fn):
             tests = []
             if isinstance(n, ast.Assert):
@@ -664,61 +735,217 @@ def _ancestry_guard(fn, comp):
     return None
 
 
-def rule_recursion(res, mods):
+_GROW = ("append", "extend", "insert", "appendleft")
+
+
+def _grows(g, L, memo, depth=0):
+    """Function g (or something it calls in its own module) may add items to the container spelled `L`
+    (`self.x` in methods of one class, a captured local in nested functions)."""
+    if g in memo:
+        return memo[g]
+    memo[g] = False
+    hit = False
+    for n in g.mod.nodes(g):
+        if isinstance(n, ast.Call) and isinstance(n.func, ast.Attribute) and n.func.attr in _GROW and P.text(n.func.value) == L:
+            hit = True
+        elif isinstance(n, (ast.AugAssign, ast.Assign)) and any(P.text(t) == L for t in (
+                [n.target] if isinstance(n, ast.AugAssign) else n.targets)) and not (
+                isinstance(n, ast.Assign) and isinstance(n.value, (ast.List, ast.Tuple)) and not n.value.elts):
+            hit = True
+    if not hit and depth < 6:
+        for h in P.callees(g, (P.model().mod,)):
+            if h.mod is g.mod and (h.cls == g.cls or P._nested_in(h, g) or P._nested_in(g, h) or h.parent is g.parent) \
+                    and _grows(h, L, memo, depth + 1):
+                hit = True
+                break
+    memo[g] = hit
+    return hit
+
+
+def _refills(w, L, fn):
+    """Nodes in the body of loop w that may put items on the work list `L`: direct growth, calls of functions that grow it,
+    calls that receive the list itself."""
+    out = []
+    memo = {}
+    for b in w.body:
+        for n in ast.walk(b):
+            if getattr(n, "_fn", None) is not fn or not isinstance(n, ast.Call):
+                continue
+            if isinstance(n.func, ast.Attribute) and P.text(n.func.value) == L:
+                if n.func.attr in _GROW:
+                    out.append(n)
+                continue
+            if any(P.text(a) == L for a in list(n.args) + [k.value for k in n.keywords]):
+                if not (isinstance(n.func, ast.Name) and n.func.id in ("len", "bool", "list", "tuple", "sorted", "iter", "reversed")):
+                    out.append(n)
+                continue
+            kind, tg = P.resolve(n, fn, (P.model().mod,))
+            if kind == "func" and any(g.mod is fn.mod and _grows(g, L, memo) for g in tg):
+                out.append(n)
+    for b in w.body:
+        for n in ast.walk(b):
+            if getattr(n, "_fn", None) is fn and isinstance(n, ast.AugAssign) and P.text(n.target) == L:
+                out.append(n)
+    return out
+
+
+def _test_and_mark(call, fn, keys):
+    """`call` calls a helper that tests whether its item is in a visited container, adds it if not, and returns whether it
+    was new: `if x in V: return False; V.add(x); return True` (or the mirrored nesting), called with the popped item."""
+    kind, p = P.resolve(call, fn, (P.model().mod,))
+    if kind != "func" or len(p) != 1:
+        return False
+    g = p[0]
+    amap = {pn: P.text(a) for pn, a in P.bind_args(call, g).items()}
+    item = [pn for pn, a in amap.items() if a in keys]
+    if len(item) != 1 or item[0] in P.stores_of(g):
+        return False
+    x = item[0]
+    rets = [n for n in g.mod.nodes(g) if isinstance(n, ast.Return)]
+    adds = [n for n in g.mod.nodes(g) if isinstance(n, ast.Call) and isinstance(n.func, ast.Attribute) and n.func.attr in ("add", "append")
+            and n.args and P.text(n.args[0]) == x]
+    if len(adds) != 1 or not rets or any(isinstance(n, (ast.For, ast.While, ast.Try, ast.With)) for n in g.mod.nodes(g)):
+        return False
+    V = P.text(adds[0].func.value)
+    # the add happens only where `x not in V` is known, every return after it is true, every return where x was in V is false
+    ka = P.know_at(adds[0], g)
+    if ka.K.get(("in", x, V)) is not False:
+        return False
+    for r in rets:
+        kr = P.know_at(r, g)
+        val = r.value.value if isinstance(r.value, ast.Constant) else None
+        seen_before = kr.K.get(("in", x, V))
+        if seen_before is True:
+            if val not in (False, None) or r.value is not None and not isinstance(r.value, ast.Constant):
+                return False
+        elif seen_before is False and P.pos(r) > P.pos(adds[0]):
+            if val is not True:
+                return False
+        else:
+            return False
+    return True
+
+
+def _helper_membership_test(w, fn, keys):
+    """Name of a module helper called in the loop with the popped item whose body tests membership of that parameter."""
+    for b in w.body:
+        for n in ast.walk(b):
+            if not isinstance(n, ast.Call) or getattr(n, "_fn", None) is not fn:
+                continue
+            kind, p = P.resolve(n, fn, (P.model().mod,))
+            if kind != "func":
+                continue
+            for g in p:
+                for pn, a in P.bind_args(n, g).items():
+                    if P.text(a) in keys and any(isinstance(c, ast.Compare) and any(isinstance(o, (ast.In, ast.NotIn)) for o in c.ops)
+                                                 and P.text(c.left) == pn for c in g.mod.nodes(g)):
+                        return g.qual
+    return None
+
+
+def _walk_key(fn, comps_in_mod):
+    """Construct key of a recursive element walk: by module and role, not by where the function is defined (closure of
+    generate(), module-level helper, method of a helper class)."""
+    base = f"{fn.mod.name}:recursive-element-walk"
+    if comps_in_mod > 1:
+        return f"{base}[{fn.node.name}]"
+    return base
+
+
+def rule_recursion(res, mods, und=None):
     res.rule("R-RECURSION", "every walk over element children in a generator (recursive function or pop/push work list) "
              "has an ancestry / visited guard, unless the validator makes child nesting acyclic", floor=3)
     acyclic = _validator_acyclic_elements()
     res.extra["validator_rejects_child_cycles"] = bool(acyclic)
     funcs = [f for m in mods for f in m.funcs.values()]
-    for comp in P.sccs(funcs, (P.model().mod,)):
+    comps = [[f for f in comp if _walks_elements(f)] for comp in P.sccs(funcs, (P.model().mod,))]
+    per_mod = {}
+    for comp in comps:
+        for f in comp:
+            per_mod[f.mod.name] = per_mod.get(f.mod.name, 0) + 1
+    for comp_all, comp in zip(P.sccs(funcs, (P.model().mod,)), comps):
         for fn in comp:
-            if not _walks_elements(fn):
-                continue
-            construct = f"{fn.mod.name}.{fn.qual}"
-            g = _ancestry_guard(fn, comp)
+            construct = _walk_key(fn, per_mod[fn.mod.name])
+            where = f"{fn.mod.name}.{fn.qual}"
+            g = _ancestry_guard(fn, comp_all)
             if g:
-                res.ok("R-RECURSION", construct, {"file": _file(fn.mod), "line": fn.node.lineno, "guard": g})
+                res.ok("R-RECURSION", construct, {"file": _file(fn.mod), "line": fn.node.lineno, "guard": g, "function": where})
             elif acyclic:
                 res.ok("R-RECURSION", construct, {"file": _file(fn.mod), "line": fn.node.lineno, "guard": f"validator line {acyclic}"})
             else:
-                rec = [c for c in P.calls_in(fn) if P.resolve(c, fn)[0] == "func" and any(h in comp for h in P.resolve(c, fn)[1])]
+                rec = [c for c in P.calls_in(fn) if P.resolve(c, fn)[0] == "func" and any(h in comp_all for h in P.resolve(c, fn)[1])]
                 res.bad("R-RECURSION", construct, _file(fn.mod), rec[0].lineno,
-                        f"recurses into child elements (`{P.text(rec[0])[:70]}`) with no ancestry/visited test; the validator "
+                        f"{where} recurses into child elements (`{P.text(rec[0])[:70]}`) with no ancestry/visited test; the validator "
                         "accepts mutually recursive child declarations (the checked-in schema has body <-> frame), so a valid "
                         "schema whose cycle does not go through the skipped cases recurses until RecursionError")
-    # work lists
+    # work lists: a container that is popped where it is known to be non-empty, inside a loop that can refill it
     for mod in mods:
         for fn in mod.funcs.values():
             for w in mod.nodes(fn):
-                if not isinstance(w, ast.While):
+                if not isinstance(w, (ast.While, ast.For)):
                     continue
-                L = P.text(w.test)
-                pops = [n for n in ast.walk(w) if isinstance(n, ast.Call) and isinstance(n.func, ast.Attribute)
-                        and n.func.attr == "pop" and P.text(n.func.value) == L]
-                if not pops:
-                    continue
-                construct = f"{mod.name}.{fn.qual}:while {L}"
-                st = P.stmt_of(pops[0])
-                if not isinstance(st, ast.Assign):
-                    res.bad("R-RECURSION", construct, _file(mod), w.lineno, "work-list pop is not bound to a name")
-                    continue
-                tgt = st.targets[0]
-                keys = {P.text(tgt)} | ({"(" + ", ".join(P.text(e) for e in tgt.elts) + ")"} if isinstance(tgt, ast.Tuple) else set())
-                guard = None
-                for s in w.body:
-                    if isinstance(s, ast.If) and P.terminates(s.body, fn) and isinstance(s.test, ast.Compare) and \
-                            len(s.test.ops) == 1 and isinstance(s.test.ops[0], ast.In) and P.text(s.test.left) in keys:
-                        V = P.text(s.test.comparators[0])
-                        added = any(isinstance(n, ast.Call) and isinstance(n.func, ast.Attribute) and n.func.attr in ("add", "append")
-                                    and P.text(n.func.value) == V and n.args and P.text(n.args[0]) in keys
-                                    for b in w.body for n in ast.walk(b))
-                        if added:
-                            guard = f"if {P.text(s.test)}: skip; {V}.add(..)"
-                if guard:
-                    res.ok("R-RECURSION", construct, {"file": _file(mod), "line": w.lineno, "guard": guard})
-                else:
-                    res.bad("R-RECURSION", construct, _file(mod), w.lineno,
-                            f"work list `{L}` is popped and refilled without a visited-set test: does not terminate on cyclic references")
+                pops = [n for b in w.body for n in ast.walk(b) if isinstance(n, ast.Call) and isinstance(n.func, ast.Attribute)
+                        and n.func.attr in ("pop", "popleft") and getattr(n, "_fn", None) is fn
+                        and next((L for L in P.loops_of(n)), None) is w]
+                for pop in pops:
+                    L = P.text(pop.func.value)
+                    k = P.know_at(pop, fn)
+                    k.forms.nodes.setdefault(L, pop.func.value)
+                    if k.val(("truthy", L)) is not True:
+                        continue                  # not a `while L:` drain (possibly via a flag / continue guard)
+                    refills = _refills(w, L, fn)
+                    if not refills:
+                        continue                  # drained, never refilled inside the loop: terminates
+                    construct = f"{mod.name}.{fn.qual}:while {L}"
+                    st = P.stmt_of(pop)
+                    if not (isinstance(st, ast.Assign) and st.value is pop and len(st.targets) == 1):
+                        res.bad("R-RECURSION", construct, _file(mod), w.lineno, "work-list pop is not bound to a name")
+                        continue
+                    tgt = st.targets[0]
+                    keys = {P.text(tgt)} | ({"(" + ", ".join(P.text(e) for e in tgt.elts) + ")"} if isinstance(tgt, ast.Tuple) else set())
+                    for b in w.body:          # `a, b = item` right in the loop: (a, b) names the popped item as well
+                        for n in ast.walk(b):
+                            if isinstance(n, ast.Assign) and len(n.targets) == 1 and isinstance(n.targets[0], ast.Tuple) and \
+                                    isinstance(n.value, ast.Name) and n.value.id in keys and getattr(n, "_fn", None) is fn and \
+                                    all(isinstance(e, ast.Name) and len(P.stores_of(fn).get(e.id, [])) == 1 for e in n.targets[0].elts):
+                                keys.add("(" + ", ".join(e.id for e in n.targets[0].elts) + ")")
+                    # visited sets: containers V with `V.add(key)` in the loop body
+                    marks = {}
+                    for b in w.body:
+                        for n in ast.walk(b):
+                            if isinstance(n, ast.Call) and isinstance(n.func, ast.Attribute) and n.func.attr in ("add", "append") \
+                                    and n.args and P.text(n.args[0]) in keys and getattr(n, "_fn", None) is fn:
+                                marks.setdefault(P.text(n.func.value), []).append(n)
+                    guard, why = None, "no visited set is marked with the popped item inside the loop"
+                    # a test-and-mark helper: `if first_visit(V, key):` / `if not first_visit(..): continue`
+                    tm = [n for b in w.body for n in ast.walk(b) if isinstance(n, ast.Call) and getattr(n, "_fn", None) is fn
+                          and _test_and_mark(n, fn, keys)]
+                    for c in tm:
+                        t = P.text(c)
+                        if all(P.know_at(r, fn).K.get(("truthy", t)) is True for r in refills if r is not c):
+                            guard = f"every refill runs only where `{t}` (test-and-mark of the popped item) returned true"
+                    helper_tests = not tm and _helper_membership_test(w, fn, keys)
+                    for V, adds in ([] if guard else marks.items()):
+                        unguarded = []
+                        for r in refills:
+                            kr = P.know_at(r, fn)
+                            if not any(kr.K.get(("in", key, V)) is False for key in keys):
+                                unguarded.append(r)
+                        if not unguarded:
+                            guard = f"every refill runs only where `{sorted(keys)[0]} not in {V}` holds; {V}.add(..) in the loop"
+                            break
+                        why = (f"`{P.text(unguarded[0])[:50]}` (line {unguarded[0].lineno}) can refill the list although the popped "
+                               f"item may already be in `{V}`")
+                    if guard:
+                        res.ok("R-RECURSION", construct, {"file": _file(mod), "line": w.lineno, "guard": guard})
+                    elif helper_tests and und is not None:
+                        und.add("R-RECURSION", construct, _file(mod), w.lineno,
+                                f"the popped item is handed to `{helper_tests}`, which tests membership: a visited-set test in a shape "
+                                "the analyser does not interpret")
+                    else:
+                        res.bad("R-RECURSION", construct, _file(mod), w.lineno,
+                                f"work list `{L}` is popped and refilled without a visited-set test ({why}): does not terminate "
+                                "on cyclic references")
 
 
 # ============================================================================ entry
@@ -732,10 +959,12 @@ def run(res, tier):
     rule_determinism(res, mods)
     rule_exhaust(res, mods)
     rule_member(res, mods)
-    literals = rule_guar(res, mods)
-    rule_recursion(res, mods)
+    und = P.Undecided()
+    literals = rule_guar(res, mods, und)
+    rule_recursion(res, mods, und)
     res.count("modules", len(mods) + 1)
     res.count("functions", sum(len(m.funcs) for m in mods))
+    und.finish(res)
     res.explanation = (
         "Static lint of the seven schema generators plus the parts of mjcf_schema.py they consume (ast only). Decided: all "
         "uses of set-typed values are order-free, no run-dependent reads; every dict lookup / if-elif chain / returning-if "
@@ -751,3 +980,203 @@ def run(res, tier):
                        "; ".join(f"{t}: {', '.join(sorted(v))}" for t, v in sorted(literals.items())),
                        "dict iteration is insertion-ordered (Python >= 3.7)",
                        "assert statements are enabled (generate_dmcontrol's cycle guard is an assert)"]
+
+
+# ============================================================================ self-test (thorough tier)
+SCHEMA_PY = DIR + "mjcf_schema.py"
+TABLE_PY = DIR + "generate_mjcf_table.py"
+XSD_PY = DIR + "generate_xsd.py"
+DMC_PY = DIR + "generate_dmcontrol.py"
+
+_EC_LOOP = """  while stack:
+    name = stack.pop()
+    if name in visited:
+      continue
+    visited.add(name)
+    group = schema.groups[name]
+    for member in group.members:
+      if isinstance(member, mjcf_schema.Constraint):
+        cons.append(member)
+      elif isinstance(member, mjcf_schema.Use):
+        stack.append(member.group)
+"""
+_EC_NESTED = """  while stack:
+    name = stack.pop()
+    if name not in visited:
+      visited.add(name)
+      for member in schema.groups[name].members:
+        if isinstance(member, mjcf_schema.Constraint):
+          cons.append(member)
+        elif isinstance(member, mjcf_schema.Use):
+          stack.append(member.group)
+"""
+_EC_FLAG = """  done = False
+  while not done:
+    if not stack:
+      done = True
+      continue
+    name = stack.pop()
+    if _seen(visited, name):
+      continue
+    visited.add(name)
+    for member in schema.groups[name].members:
+      if isinstance(member, mjcf_schema.Constraint):
+        cons.append(member)
+      elif isinstance(member, mjcf_schema.Use):
+        stack.append(member.group)
+"""
+_EC_HEAD = "def _element_constraints(schema, element):\n"
+_XSD_LOOP = """    self.pending = [('mujoco', False)]
+    while self.pending:
+      name, projected = self.pending.pop(0)
+      if (name, projected) in self.emitted:
+        continue
+      self.emitted.add((name, projected))
+      self.emit_complex_type(name, projected)
+"""
+_XSD_METHOD_CALL = "    self.emit_reachable_types()\n"
+_XSD_GENERATE = "  def generate(self):\n    \"\"\"Return the complete XSD document as a string.\"\"\"\n"
+
+
+def _xsd_method(test=True, refill_guarded=True):
+    body = "  def emit_reachable_types(self):\n    self.pending = [('mujoco', False)]\n    while self.pending:\n      key = self.pending.pop(0)\n"
+    if test and refill_guarded:
+        body += "      if key not in self.emitted:\n        self.emitted.add(key)\n        self.emit_complex_type(*key)\n"
+    elif test:
+        body += "      if key not in self.emitted:\n        self.emitted.add(key)\n      self.emit_complex_type(*key)\n"
+    else:
+        body += "      self.emitted.add(key)\n      self.emit_complex_type(*key)\n"
+    return [(XSD_PY, _XSD_LOOP, _XSD_METHOD_CALL), (XSD_PY, _XSD_GENERATE, body + "\n" + _XSD_GENERATE)]
+
+
+_VISIT_CHILDREN = """    children = [c for c in element.children()
+                if c.name != element.name
+                and 'alias' not in schema.elements[c.name].facets]
+    if project:
+      # plugin configuration is not settable per-class
+      children = [c for c in children if c.name != 'plugin']
+"""
+_ROW_CHILDREN = """def _row_children(schema, element, project: bool):
+  children = []
+  for child in element.children():
+    if child.name == element.name:
+      continue
+    if 'alias' in schema.elements[child.name].facets:
+      continue
+    if project and child.name == 'plugin':
+      continue
+    children.append(child)
+  return children
+
+
+"""
+_ROW_ATTRS_SET = "    row_attrs = {a.name for a in attrs}\n"
+_ROW_TEST = "      if all(all(n in row_attrs for n in b) for b in con.bundles):\n"
+_SCHEMA_CHILD_CHECK = ("      if child.name not in schema.elements:\n"
+                       "        err(child.line, f'child references undeclared element {child.name!r}')\n")
+_DMC_ASSERT = """    assert (
+        element.name not in ancestry
+        or (element.name == 'default' and parent == 'default')
+    ), f'unexpected cycle at {element.name}'
+"""
+
+MUTANTS = [
+    # ---- must fire
+    {"id": "validator-drops-child-membership-test", "expect": ("R-ASSUME-GUAR", "schema.elements[child.name]"),
+     "edits": [(SCHEMA_PY, _SCHEMA_CHILD_CHECK, "")]},
+    {"id": "lookup-in-wrong-table", "expect": ("R-ASSUME-GUAR", "generate_mjcf_table.generate.visit:schema.groups[child.name]"),
+     "edits": [(TABLE_PY, "      decl = schema.elements[child.name]\n", "      decl = schema.groups[child.name]\n")]},
+    {"id": "worklist-drops-visited-test", "expect": ("R-RECURSION", "_element_constraints:while"),
+     "edits": [(TABLE_PY, "    if name in visited:\n      continue\n", "")]},
+    {"id": "xsd-worklist-drops-visited-test", "expect": ("R-RECURSION", "generate_xsd._Emitter.generate:while"),
+     "edits": [(XSD_PY, "      if (name, projected) in self.emitted:\n        continue\n", "")]},
+    {"id": "xsd-worklist-method-without-test", "expect": ("R-RECURSION", "emit_reachable_types:while"), "edits": _xsd_method(test=False)},
+    {"id": "xsd-worklist-refill-outside-test", "expect": ("R-RECURSION", "emit_reachable_types:while"),
+     "edits": _xsd_method(refill_guarded=False)},
+    {"id": "walk-drops-ancestry-test", "expect": ("R-RECURSION", "generate_dmcontrol:recursive-element-walk"),
+     "edits": [(DMC_PY, _DMC_ASSERT, "")]},
+    {"id": "set-iterated-into-output", "expect": ("R-DETERMINISM", "generate_dmcontrol"),
+     "edits": [(DMC_PY, "f'populates: {sorted(dangling)}')", "f'populates: {sorted(dangling)}')\n    for r in dangling:\n      self.out(0, str(r))")]},
+    {"id": "set-passed-to-iterating-helper", "expect": ("R-DETERMINISM", "generate_mjcf_table"),
+     "edits": [(TABLE_PY, _EC_HEAD, "def _names_line(names):\n  return ' '.join(n for n in names)\n\n\n" + _EC_HEAD),
+               (TABLE_PY, _ROW_ATTRS_SET, _ROW_ATTRS_SET + "    constraints.append('// ' + _names_line(row_attrs))\n")]},
+    {"id": "hash-in-output", "expect": ("R-DETERMINISM", "hash()"),
+     "edits": [(TABLE_PY, "    row_index = count\n", "    row_index = count + hash(element.name) % 1\n")]},
+    {"id": "type-table-misses-file", "expect": ("R-EXHAUST", "SCALAR_XSD"),
+     "edits": [(XSD_PY, "    if attr.type in ('string', 'file', 'ref', 'id'):\n      return 'xs:string', []",
+                "    if attr.type in ('string', 'ref', 'id'):\n      return 'xs:string', []"),
+               (XSD_PY, "              'string': 'xs:string', 'file': 'xs:string'}", "              'string': 'xs:string'}")]},
+    {"id": "children-helper-returns-uses", "expect": ("R-EXHAUST-MEMBER", "generate_mjcf_table"),
+     "edits": [(TABLE_PY, _EC_HEAD, _ROW_CHILDREN.replace("for child in element.children():", "for child in element.members:") + _EC_HEAD),
+               (TABLE_PY, _VISIT_CHILDREN, "    children = _row_children(schema, element, project)\n")]},
+    # ---- controls: behaviour-preserving shapes (small versions of the stored refactors E-p1 .. E-p4)
+    {"id": "ctl-worklist-test-nests-the-work", "expect": None, "edits": [(TABLE_PY, _EC_LOOP, _EC_NESTED)]},
+    {"id": "ctl-worklist-flag-loop-and-seen-helper", "expect": None,
+     "edits": [(TABLE_PY, _EC_LOOP, _EC_FLAG),
+               (TABLE_PY, _EC_HEAD, "def _seen(visited, name):\n  return name in visited\n\n\n" + _EC_HEAD)]},
+    {"id": "ctl-xsd-worklist-in-method-with-star-call", "expect": None, "edits": _xsd_method()},
+    {"id": "ctl-children-filter-in-helper", "expect": None,
+     "edits": [(TABLE_PY, _EC_HEAD, _ROW_CHILDREN + _EC_HEAD),
+               (TABLE_PY, _VISIT_CHILDREN, "    children = _row_children(schema, element, project)\n")]},
+    {"id": "ctl-set-passed-to-membership-helper", "expect": None,
+     "edits": [(TABLE_PY, _EC_HEAD, "def _all_known(names, known):\n  return all(n in known for n in names)\n\n\n" + _EC_HEAD),
+               (TABLE_PY, _ROW_TEST, "      if _all_known([n for b in con.bundles for n in b], row_attrs):\n")]},
+    {"id": "ctl-table-alias-local", "expect": None,
+     "edits": [(TABLE_PY, "      decl = schema.elements[child.name]\n", "      elements = schema.elements\n      decl = elements[child.name]\n")]},
+]
+
+
+_NS_LOOP = """  namespaces = set()
+  for container in containers:
+    for member in container.members:
+      if isinstance(member, Attr) and member.type == 'id':
+        namespaces.add(member.target)
+"""
+_NS_HELPER = """def _id_namespaces(containers):
+  return {member.target
+          for container in containers
+          for member in container.members
+          if isinstance(member, Attr) and member.type == 'id'}
+
+
+"""
+_V_HEAD = "def _validate(schema: Schema):\n"
+_ORDERED = "    for tname in sorted(self.vector_types):"
+
+MUTANTS += [
+    {"id": "set-from-helper-iterated", "expect": ("R-DETERMINISM", "mjcf_schema._validate:namespaces"),
+     "edits": [(SCHEMA_PY, _NS_LOOP, "  namespaces = _id_namespaces(containers)\n  for ns in namespaces:\n    str(ns)\n"),
+               (SCHEMA_PY, _V_HEAD, _NS_HELPER + _V_HEAD)]},
+    {"id": "helper-lists-a-set-unsorted", "expect": ("R-DETERMINISM", "generate_xsd._ordered"),
+     "edits": [(XSD_PY, _ORDERED, "    for tname in _ordered(set(self.vector_types)):"),
+               (XSD_PY, "class _Emitter:", "def _ordered(names):\n  return list(names)\n\n\nclass _Emitter:")]},
+    {"id": "ctl-set-built-and-returned-by-helper", "expect": None,
+     "edits": [(SCHEMA_PY, _NS_LOOP, "  namespaces = _id_namespaces(containers)\n"), (SCHEMA_PY, _V_HEAD, _NS_HELPER + _V_HEAD)]},
+    {"id": "ctl-sorted-inside-helper", "expect": None,
+     "edits": [(XSD_PY, _ORDERED, "    for tname in _ordered(set(self.vector_types)):"),
+               (XSD_PY, "class _Emitter:", "def _ordered(names):\n  return sorted(names)\n\n\nclass _Emitter:")]},
+    {"id": "ctl-ancestry-assert-in-helper", "expect": None,
+     "edits": [(DMC_PY, _DMC_ASSERT, "    _check_acyclic(element, ancestry, parent)\n"),
+               (DMC_PY, "class _Emitter:", "def _check_acyclic(element, ancestry, parent):\n  assert (\n      element.name not in ancestry\n"
+                "      or (element.name == 'default' and parent == 'default')\n  ), f'unexpected cycle at {element.name}'\n\n\nclass _Emitter:")]},
+    {"id": "ctl-visited-test-and-mark-helper", "expect": None,
+     "edits": [(TABLE_PY, "    if name in visited:\n      continue\n    visited.add(name)\n", "    if not _first_visit(visited, name):\n      continue\n"),
+               (TABLE_PY, _EC_HEAD, "def _first_visit(visited, name):\n  if name in visited:\n    return False\n  visited.add(name)\n  return True\n\n\n" + _EC_HEAD)]},
+    {"id": "test-and-mark-helper-never-marks", "expect": ("R-RECURSION", "_element_constraints:while"),
+     "edits": [(TABLE_PY, "    if name in visited:\n      continue\n    visited.add(name)\n", "    if not _first_visit(visited, name):\n      continue\n"),
+               (TABLE_PY, _EC_HEAD, "def _first_visit(visited, name):\n  return True\n\n\n" + _EC_HEAD)]},
+    {"id": "ctl-popped-item-unpacked-later", "expect": None,
+     "edits": [(XSD_PY, "      name, projected = self.pending.pop(0)\n", "      item = self.pending.pop(0)\n      name, projected = item\n")]},
+]
+
+
+def _schema_controls():
+    """The behaviour-preserving reshapes of mjcf_schema.py used by C41's self-test must leave C42 unchanged as well (the
+    validator guarantees and the name-keyed tables are read from that module)."""
+    from . import c41
+    return [dict(m, id="schema-" + m["id"]) for m in c41.MUTANTS if m["expect"] is None]
+
+
+def selftest(res):
+    from .. import r_misc
+    r_misc.run_mutants("C42", res, MUTANTS + _schema_controls(), parts=("doc/generate",))
